@@ -16,7 +16,8 @@ def sh(cmd, **kw):
 
 
 def confirm(P, mut):
-    src = "/tmp/mut/%sc/MUT" % P if os.path.isdir("/tmp/mut/%sc/MUT" % P) and mut == "mutC" else "/tmp/wt/out/%s/%s" % (P, mut)
+    letter = mut[-1].lower()
+    src = "/tmp/mut/%s%s/MUT" % (P, letter) if os.path.isdir("/tmp/mut/%s%s/MUT" % (P, letter)) else "/tmp/wt/out/%s/%s" % (P, mut)
     wt = "/tmp/wt/confirm_%s_%s" % (P, mut)
     os.makedirs("/tmp/wt", exist_ok=True)
     sh("git -C /repo worktree remove --force %s" % wt)
@@ -26,6 +27,8 @@ def confirm(P, mut):
         env = "cd %s && PYTHONPATH=%s /venv/bin/python %s/demo.py" % (wt, wt, src)
         clean = sh(env)
         ap = sh("git -C %s apply %s/patch.diff" % (wt, src))
+        if ap.returncode != 0:
+            print(ap.stderr)
         applied = ap.returncode == 0
         mutated = sh(env) if applied else None
         base = sh("%s/tools/baseline.py %s" % (ROOT, wt)) if applied else None
@@ -48,6 +51,34 @@ def confirm(P, mut):
                 "demo.py on the mutated tree (non-zero)", "the 869 baseline tests on the mutated tree (all pass)"])
             json.dump(meta, open(os.path.join(dst, "meta.json"), "w"), indent=1)
         return ok
+    finally:
+        sh("git -C /repo worktree remove --force %s" % wt)
+
+
+def reconfirm(name):
+    """a patch that was rebased by hand: demo passes on the clean tree, fails with the patch, baseline tests pass"""
+    d = os.path.join(SEEDED, name)
+    wt = "/tmp/wt/reconfirm_%s" % name
+    os.makedirs("/tmp/wt", exist_ok=True)
+    sh("git -C /repo worktree remove --force %s" % wt)
+    r = sh("git -C /repo worktree add -q --detach %s HEAD" % wt)
+    assert r.returncode == 0, r.stderr
+    try:
+        env = "cd %s && PYTHONPATH=%s /venv/bin/python %s/demo.py" % (wt, wt, d)
+        clean = sh(env)
+        ap = sh("git -C %s apply %s/patch.diff" % (wt, d))
+        mutated = sh(env) if ap.returncode == 0 else None
+        base = sh("%s/tools/baseline.py %s" % (ROOT, wt)) if ap.returncode == 0 else None
+        res = {"demo_on_clean_rc": clean.returncode, "patch_applies": ap.returncode == 0,
+               "demo_on_mutated_rc": mutated.returncode if mutated else None,
+               "baseline_on_mutated": base.stdout.strip().split("\n")[0] if base else None,
+               "repo_head": sh("git -C /repo rev-parse --short HEAD").stdout.strip()}
+        res["confirmed"] = bool(clean.returncode == 0 and mutated and mutated.returncode != 0 and base.returncode == 0)
+        meta = json.load(open(os.path.join(d, "meta.json")))
+        meta["reconfirmation_after_rebase"] = res
+        json.dump(meta, open(os.path.join(d, "meta.json"), "w"), indent=1)
+        print(name, res)
+        return res["confirmed"]
     finally:
         sh("git -C /repo worktree remove --force %s" % wt)
 
@@ -136,5 +167,7 @@ if __name__ == "__main__":
                     print(name, "ERROR", e)
     if sys.argv[1] == "confirm":
         sys.exit(0 if confirm(sys.argv[2], sys.argv[3]) else 1)
+    if sys.argv[1] == "reconfirm":
+        sys.exit(0 if reconfirm(sys.argv[2]) else 1)
     if sys.argv[1] == "run":
         run(sys.argv[2], sys.argv[3:])
